@@ -11,7 +11,8 @@ for i in $(seq 1 $N); do
   W=$BASE/w$i
   rm -rf $W; mkdir -p $W
   git clone -q /repo $W/repo
-  rsync -a --exclude run --exclude replays --exclude .git /verif/ $W/verif/
+  # (a build running in /verif meanwhile makes files vanish under rsync: exit code 24 is fine)
+  rsync -a --exclude run --exclude replays --exclude .git --exclude 'harness/target*/debug/incremental' /verif/ $W/verif/ || [ $? -eq 24 ]
   sed -i "s#/repo/#$W/repo/#" $W/verif/harness/Cargo.toml
 done
 worker() {
